@@ -3,7 +3,10 @@ package main
 import (
 	"fmt"
 	"math/rand"
+	"runtime"
 	"sort"
+	"sync"
+	"sync/atomic"
 
 	"github.com/markusressel/fan2go/internal/configuration"
 	"github.com/markusressel/fan2go/internal/curves"
@@ -340,8 +343,100 @@ func c07Controller(ctx *Ctx) {
 	}
 }
 
+// c07SharedCurve: one function curve object is the curve of several fans, so several control loops evaluate it from
+// their own goroutines (the documented "case fans follow maximum(cpu, gpu)"). While the temperatures only rise, the
+// values each of them obtains must not fall.
+func c07SharedCurve(ctx *Ctx) {
+	r := ctx.Rng
+	sens := []*ScriptSensor{newScriptSensor(20000), newScriptSensor(25000), newScriptSensor(30000)}
+	var ids []string
+	var ds []interface{}
+	for i, k := 0, 3+r.Intn(5); i < k; i++ {
+		m := genMonotoneLinear(r, sens[r.Intn(len(sens))])
+		ids = append(ids, m.curve.GetId())
+		ds = append(ds, m.desc)
+	}
+	typ := pick(r, c07FnTypes...)
+	top := mkCurve(configuration.CurveConfig{ID: uniqueId("fn"), Function: &configuration.FunctionCurveConfig{Type: typ, Curves: ids}})
+	if r.Intn(2) == 0 {
+		// ... also reached through a second function curve
+		extra := genMonotoneLinear(r, sens[0])
+		top2 := mkCurve(configuration.CurveConfig{ID: uniqueId("fn"), Function: &configuration.FunctionCurveConfig{Type: pick(r, c07FnTypes...), Curves: []string{top.GetId(), extra.curve.GetId()}}})
+		_ = top2
+		ids = append(ids, "(nested)")
+		top = top2
+	}
+	desc := map[string]interface{}{"kind": "shared function curve evaluated by 4 goroutines while the temperatures rise", "type": typ, "members": ds}
+	ctx.SampleKind("shared-curve", desc)
+	var stop atomic.Bool
+	var wg, wr sync.WaitGroup
+	wr.Add(1)
+	go func() {
+		defer wr.Done()
+		steps := []float64{0, 1, 250, 1000, 0.5, 5000}
+		for i := 0; !stop.Load(); i++ {
+			s := sens[i%len(sens)]
+			if s.Avg < 140000 {
+				s.Avg += steps[i%len(steps)]
+			}
+			if i%64 == 0 {
+				runtime.Gosched()
+			}
+		}
+	}()
+	const G, N = 4, 2500
+	type drop struct {
+		at, from, to int
+		panicMsg     string
+	}
+	drops := make([]*drop, G)
+	for g := 0; g < G; g++ {
+		wg.Add(1)
+		go func(g int) {
+			defer wg.Done()
+			prev := -1 << 30
+			for i := 0; i < N; i++ {
+				var v int
+				var err error
+				if p, msg := Guard(func() { v, err = top.Evaluate() }); p {
+					drops[g] = &drop{at: i, panicMsg: msg}
+					return
+				}
+				if err != nil {
+					continue
+				}
+				if v < prev {
+					drops[g] = &drop{at: i, from: prev, to: v}
+					return
+				}
+				prev = v
+			}
+		}(g)
+	}
+	wg.Wait()
+	stop.Store(true)
+	wr.Wait()
+	ctx.Eval(G * N)
+	for g, d := range drops {
+		if d == nil {
+			continue
+		}
+		if d.panicMsg != "" {
+			ctx.Violation("shared-curve:panic-in-concurrent-evaluation:"+typ, fmt.Sprintf("goroutine %d, evaluation %d: %s", g, d.at, d.panicMsg), desc)
+		} else {
+			ctx.Violation("shared-curve:value-falls-while-temperatures-only-rise:"+typ, fmt.Sprintf("goroutine %d of %d evaluating the same curve object: evaluation %d returned %d after %d; %s", g, G, d.at, d.to, d.from, jsonStr(desc)), desc)
+		}
+		return
+	}
+	ctx.Count("concurrent_evaluations_of_a_shared_curve", G*N)
+	ctx.Nontrivial("shared-curve|" + typ + "|" + fmt.Sprint(len(ids)))
+}
+
 func init() {
 	register("C07", func(ctx *Ctx) {
+		for i, ns := 0, ctx.N(32, 320); i < ns; i++ {
+			c07SharedCurve(ctx)
+		}
 		n := ctx.N(6000, 60000)
 		for k := 0; k < n; k++ {
 			if k%4 == 3 {
